@@ -25,6 +25,9 @@ pub struct TransitionEngine {
     pub cfg: GenCfg,
     pub max_ops: usize,
     pub max_vehicles: usize,
+    /// true: this process is the killable child that runs the optimiser relation in-process
+    pub optimiser_in_process: bool,
+    pub tier: String,
 }
 
 impl TransitionEngine {
@@ -36,7 +39,7 @@ impl TransitionEngine {
         cfg.max_departures = 4;
         cfg.max_need = 2;
         cfg.max_total_need = 100;
-        TransitionEngine { cfg, max_ops: if thorough { 30 } else { 10 }, max_vehicles: 6 }
+        TransitionEngine { cfg, max_ops: if thorough { 30 } else { 10 }, max_vehicles: 6, optimiser_in_process: false, tier: tier.to_string() }
     }
 }
 
@@ -377,6 +380,27 @@ impl Engine for TransitionEngine {
             let in_cycles = base.cycles_iter().filter(|c| !c.is_empty()).count();
             optimiser_nontrivial = in_cycles >= 2;
             let input = (base.maintenance_violation(), base.maintenance_counter());
+            if optimiser_nontrivial && !self.optimiser_in_process {
+                // the optimiser can loop forever when a counter is wrong (every fake improvement is
+                // accepted): run it in a killable child that re-evaluates this very tape
+                use crate::engine_pipeline::{run_child, ChildResult};
+                match run_child("checked", &["c15-opt", &self.tier], &tape.to_json().to_string(), std::time::Duration::from_secs(20), &[]) {
+                    ChildResult::Answer { output, .. } => {
+                        for f in output["findings"].as_array().cloned().unwrap_or_default() {
+                            fs.push(Finding { prop: "C15", msg: f.as_str().unwrap_or("").to_string() });
+                        }
+                        if let Some(l) = output["log"].as_str() {
+                            log.push(l.to_string());
+                        }
+                    }
+                    ChildResult::Timeout => {
+                        o.inconclusive = Some("transition optimiser gave no answer within 20 s".into());
+                        o.classes.push("optimiser_timeout".into());
+                    }
+                    ChildResult::Panic { msg, file, .. } => fs.push(Finding { prop: "C15", msg: format!("PANIC in the transition optimiser child at {}: {}", file, msg) }),
+                    ChildResult::Broken(e) => o.inconclusive = Some(format!("optimiser child broken: {}", e)),
+                }
+            } else {
             let res = sut::catch(|| {
                 let solver = solver::transition_local_search::build_transition_local_search_solver(&sched, cx.net.clone());
                 solver.solve(solver::transition_local_search::TransitionWithInfo::new(base.clone(), String::new())).unwrap().unwrap_transition()
@@ -401,8 +425,9 @@ impl Engine for TransitionEngine {
                     log.push(format!("optimiser: {:?} -> {:?}", input, (out.maintenance_violation(), out.maintenance_counter())));
                 }
             }
+            }
         }
-        o.classes = inst_classes(&cx.flat).iter().map(|s| s.to_string()).collect();
+        o.classes.extend(inst_classes(&cx.flat).iter().map(|s| s.to_string()));
         if emptied {
             o.classes.push("cycle_emptied".into());
         }
@@ -420,4 +445,27 @@ impl Engine for TransitionEngine {
         o.findings = fs;
         o
     }
+}
+
+/// child entry: `rsv c15-opt <tier>` -- evaluates the tape on stdin with the optimiser in-process
+/// and prints the optimiser-related findings
+pub fn c15_opt_main(tier: &str) -> i32 {
+    use std::io::Read;
+    sut::silence_stdout();
+    let mut input = String::new();
+    std::io::stdin().read_to_string(&mut input).expect("stdin");
+    let v: serde_json::Value = serde_json::from_str(&input).expect("tape json");
+    let tape = Tape::from_json(&v).expect("tape");
+    let mut e = TransitionEngine::new(tier);
+    e.optimiser_in_process = true;
+    let res = sut::catch(|| e.eval(&tape));
+    match res {
+        Ok(o) => {
+            let findings: Vec<String> = o.findings.iter().filter(|f| f.msg.contains("optimiser")).map(|f| f.msg.clone()).collect();
+            let log = o.sample["ops"].as_array().and_then(|a| a.last().cloned()).unwrap_or(serde_json::Value::Null);
+            sut::outln(&json!({"status": "answer", "output": {"findings": findings, "log": log}, "snapshots": []}).to_string());
+        }
+        Err(p) => sut::outln(&json!({"status": "panic", "msg": p.msg, "loc": p.loc, "file": p.file()}).to_string()),
+    }
+    0
 }
